@@ -124,6 +124,7 @@ MATERIALS = {
     "svk": lambda: fem.constitution.SaintVenantKirchhoff(mu=1.25, lmbda=2.0) if hasattr(fem.constitution, "SaintVenantKirchhoff")
     else fem.Hyperelastic(fem.saint_venant_kirchhoff, mu=1.25, lmbda=2.0),
     "neohooke": lambda: fem.NeoHooke(mu=1.25, bulk=5.0),
+    "neohooke-bulkonly": lambda: fem.NeoHooke(mu=None, bulk=3.5),
     "neohookecompressible": lambda: fem.NeoHookeCompressible(mu=1.25, lmbda=2.0),
     "linearelastic": lambda: fem.LinearElastic(E=2.0, nu=0.25),
     "mooneyrivlin-ad": lambda: fem.Hyperelastic(fem.mooney_rivlin, C10=0.3, C01=0.2) & fem.Volumetric(bulk=5.0),
@@ -133,7 +134,7 @@ MATERIALS = {
 def cases(tier, rng):
     """yields (name, builder) ; builder() -> (item, field, symmetric, settle, kind)"""
     quick = tier == "quick"
-    mats = ["neohooke", "svk"] if quick else list(MATERIALS)
+    mats = ["neohooke", "svk", "neohooke-bulkonly"] if quick else list(MATERIALS)
 
     def hexfield(order=1, n=3):
         m = perturb(fem.Cube(n=n), rng)
